@@ -463,7 +463,7 @@ def run(ctx):
                 exp_spec = Simulation.MonoSpectrum(log_nu_energy=9.25)
             if k % 3 == 1:
                 argv += ["--monocloud", "2.5"]
-            if k % 4 == 3:
+            if k % 2 == 1:  # staged writing (-w): the file the command leaves behind must still be complete
                 argv += ["-w"]
             toml = os.path.join(work, "cli.toml")
             out = os.path.join(work, ["cli_out.fits", "cli_results"][k % 2 if k > 1 else 0] )
@@ -500,6 +500,16 @@ def run(ctx):
                 probs.append("detector position")
             if "log_e_nu" not in tb.colnames or "OMCINT" not in {x.upper() for x in tb.meta}:
                 probs.append("results columns / integral keywords missing from the file")
+            # the file must hold every column and header keyword of the table that compute() returns
+            # for this configuration (an equivalent in-process run)
+            ref_sim, ref_log = fullrun.compute(exp, seed=100 + k, freeze=False)
+            if ref_log.exception is None and ref_sim is not None:
+                fkeys = {x.upper() for x in tb.meta}
+                miss_k = sorted(x for x in (y.upper() for y in ref_sim.meta) if x not in fkeys and not x.startswith("HIERARCH "))
+                miss_k = [x for x in miss_k if ("HIERARCH " + x) not in fkeys]
+                miss_c = sorted(set(ref_sim.colnames) - set(tb.colnames))
+                if miss_k or miss_c:
+                    probs.append(f"the file lacks header values {miss_k[:8]} and columns {miss_c[:8]} that the table returned by compute() has")
             if probs:
                 ctx.violation("cli", f"`nuspacesim run` {argv}: the results file does not describe the run: " + "; ".join(probs), wit)
             ctx.distinct.add(("cli", tuple(argv), os.path.basename(out)))
